@@ -501,7 +501,7 @@ def run(ck: Check) -> None:
     from . import c14_refkids
 
     c14_refkids.campaign_bookkeeping(ck, 40 if quick else 400)
-    c14_refkids.campaign_family(ck, 35 if quick else 280, both_styles=not quick)
+    c14_refkids.campaign_family(ck, 35 if quick else 140, both_styles=not quick)
     campaign_focused(ck)
     campaign_random(ck, 70 if quick else 600)
     campaign_fracbound(ck, 16 if quick else 96)
